@@ -73,11 +73,12 @@ def table_utility(comp):
             r.score = null_score if comp.get("fail") else comp.get("call", 0.0)
             return r
 
+        # like the real utilities, null and mean scores depend on the TRAINING labels too (on the set of classes present)
         def null_score(self, *a, **k):
-            return comp.get("null_score", 0.0)
+            return comp.get("null_score", 0.0) + (0.25 * len(set(np.asarray(a[1]).tolist())) if len(a) > 1 else 0.0)
 
         def mean_score(self, *a, **k):
-            return comp.get("mean_score", 0.0)
+            return comp.get("mean_score", 0.0) - (0.5 * len(set(np.asarray(a[1]).tolist())) if len(a) > 1 else 0.0)
 
         def elementwise_score(self, X_train, y_train, X_test, y_test, metadata_train=None, metadata_test=None):
             return self.U            # the retained array itself, on purpose
@@ -106,9 +107,12 @@ def run_impl(c):
         jn = np.asarray(joint.elementwise_null_score(X, y, Xv, yv), dtype=float)
         ws = [1.0 / len(us)] * len(us) if c["default_w"] else c["ws"]
         scal = []
-        for name in ("null_score", "mean_score"):
-            comps = [float(getattr(u, name)(X, y, Xv, yv)) for u in us]
-            scal.append([float(getattr(joint, name)(X, y, Xv, yv)), float(sum(w * v for w, v in zip(ws, comps))), comps])
+        # a HISTORY on the one joint object: first a one-row training subset, then the full data, then the subset again -- same
+        # validation labels throughout; every answer must be the weighted sum of what the components answer to the same call
+        for Xs, ys in ((X[:1], y[:1]), (X, y), (X[:1], y[:1]), (X, y)):
+            for name in ("null_score", "mean_score"):
+                comps = [float(getattr(u, name)(Xs, ys, Xv, yv)) for u in us]
+                scal.append([float(getattr(joint, name)(Xs, ys, Xv, yv)), float(sum(w * v for w, v in zip(ws, comps))), comps])
         calls = []
         r = joint(X, y, Xv, yv, null_score=-7.5)
         comps = [float(u(X, y, Xv, yv).score) for u in us]
